@@ -178,6 +178,45 @@ private:
     }
 };
 
+// the iterator-range helpers of <boost/mpi/nonblocking.hpp>, with Boost's own algorithms (every request::test() inside
+// them is a scheduling point like any other)
+template<typename BidirectionalIterator>
+BidirectionalIterator test_some(BidirectionalIterator first, BidirectionalIterator last) {
+    BidirectionalIterator current = first, start_of_completed = last;
+    while (current != start_of_completed) {
+        if (boost::optional<status> result = current->test()) {
+            --start_of_completed;
+            std::iter_swap(current, start_of_completed);    // completed requests are MOVED to the end of the range
+            continue;
+        }
+        ++current;
+    }
+    return start_of_completed;
+}
+template<typename BidirectionalIterator, typename OutputIterator>
+std::pair<OutputIterator, BidirectionalIterator> test_some(BidirectionalIterator first, BidirectionalIterator last, OutputIterator out) {
+    BidirectionalIterator current = first, start_of_completed = last;
+    while (current != start_of_completed) {
+        if (boost::optional<status> result = current->test()) {
+            *out++ = *result;
+            --start_of_completed;
+            std::iter_swap(current, start_of_completed);
+            continue;
+        }
+        ++current;
+    }
+    std::reverse(start_of_completed, last);
+    return std::make_pair(out, start_of_completed);
+}
+template<typename ForwardIterator>
+boost::optional<std::pair<status, ForwardIterator> > test_any(ForwardIterator first, ForwardIterator last) {
+    while (first != last) {
+        if (boost::optional<status> result = first->test()) return std::make_pair(*result, first);
+        ++first;
+    }
+    return boost::optional<std::pair<status, ForwardIterator> >();
+}
+
 // MPI_Bcast is NOT a synchronisation: the root deposits the value and goes on at once; every other rank blocks until the
 // root of the same (n-th) broadcast on the communicator has deposited it.
 inline void broadcast(const communicator& c, std::vector<int>& v, int root) {
